@@ -279,7 +279,8 @@ def _lookup_job(job):
 def _item_row(a):
     dd = a._decl
     eff = list(a.items) if getattr(a, "items", None) is not None else None
-    return [dd["cls"], dd["type"], dd["pos"], dd["bitpos"], eff if eff != dd["items"] else dd["items"], dd["size"], dd["maxitems"], dd["rw"],
+    return [dd["cls"], dd["type"], dd["pos"], dd["bitpos"], eff if eff != dd["items"] else dd["items"], dd["size"], dd["maxitems"],
+            [dd["rw"], a.read_write],  # as declared, and as the live item answers now
             a.length, getattr(a, "bitmask", None) if dd["bitpos"] is not None else None, a.tag]
 
 
@@ -325,6 +326,45 @@ def _rebuild_job(job):
                 break
             prev = (pl, cfg, log)
     return plat, n, bad
+
+
+def _facade_layout_job(job):
+    """A published layout is also what a client sees AFTER the automation layer was built on its structure: both
+    facades are constructed (and the blocking one re-scanned) on a structure of the combination, over an empty block, the
+    maximal wiring and every single-device wiring; afterwards every item still has the module's layout."""
+    plat, cfg, log = job
+    from .. import fakes
+    from .c11 import build_async, build_sync
+    from .c12 import apply_wiring, wirings
+
+    spa = fakes.FakeSpa().load(plat, cfg, log)
+    if "TempUnits" not in spa.accessors:
+        return job, 0, []
+    fresh = GeckoStructure(lambda *a: None)
+    cm, lm = lib.pack_module(f"{plat}-cfg-{cfg}"), lib.pack_module(f"{plat}-log-{log}")
+    want = {tag: json.loads(json.dumps(_item_row(a)))
+            for tag, a in dict(cm.GeckoConfigStruct(fresh).accessors, **lm.GeckoLogStruct(fresh).accessors).items()}
+    ws = wirings(spa, False)
+    pick = [w for w in ws if w[0] == "empty" or w[0].startswith("maximal:")] + [w for w in ws if len(w[1]) == 1][:24]
+    bad, n = [], 0
+    for desc, w in pick:
+        spa.struct.set_status_block(apply_wiring(spa, bytes(1024), w))
+        for which, build in (("async", build_async), ("sync", build_sync)):
+            try:
+                fac = build(spa)
+                if which == "sync":
+                    fac.scan_outputs()
+            except Exception:  # noqa  (unconstructible combinations are C11's business)
+                continue
+            n += 1
+            got = {tag: json.loads(json.dumps(_item_row(a))) for tag, a in spa.struct.accessors.items()}
+            diff = [t for t in want if got.get(t) != want[t]] + [t for t in got if t not in want]
+            if diff:
+                t = diff[0]
+                bad.append((f"facade-changed-layout|{which}", f"{plat} cfg {cfg} log {log} wiring {desc}: after the {which} facade was built, "
+                            f"{len(diff)} item(s) no longer have the published layout, e.g. {t}: {got.get(t)} instead of {want.get(t)}"))
+                return job, n, bad
+    return job, n, bad
 
 
 def load_pin():
@@ -464,6 +504,25 @@ def run(ctx):
             ctx.violation(f"C18|{cls}|{plat}", text, {"module": plat, "mode": "rebuild"})
     evals += nr
     ctx.set("rebuilds_on_live_structures", nr)
+    # the automation layer on top: every cfg with the newest log and every log with the newest cfg (thorough: every pair)
+    from .. import fakes
+    combos = fakes.all_combinations()
+    if ctx.quick:
+        keep = set()
+        for plat, v in plats.items():
+            if v["cfg"] and v["log"]:
+                keep.update((plat, c, v["log"][-1]) for c in v["cfg"])
+                keep.update((plat, v["cfg"][-1], l) for l in v["log"])
+        combos = [c for c in combos if c in keep]
+    nfl = 0
+    for job, n, bad in core.pimap(ctx, _facade_layout_job, combos, chunksize=2):
+        nfl += n
+        for cls, text in bad:
+            ctx.violation(f"C18|{cls}|{job[0]}", text, {"module": job[0], "mode": "facade-layout", "combo": list(job)})
+    if nfl == 0:
+        raise core.HarnessError("C18: no facade could be built on any combination - the layout-after-facade clause is vacuous")
+    evals += nfl
+    ctx.set("facades_built_then_layout_compared", nfl)
     ctx.set("modules", len(names))
     ctx.set("items", nitems)
     ctx.set("pin", pinfile)
@@ -490,6 +549,14 @@ def replay(ctx, data):
         p_, n, bad = _rebuild_job((plat, [(c, l) for c in v["cfg"] for l in v["log"]], (o, plats[o]["cfg"][-1], plats[o]["log"][-1])))
         for cls, text in bad:
             ctx.violation(f"C18|{cls}|{plat}", text, data)
+        ctx.set("evaluations", 1)
+        ctx.set("distinct_nontrivial", 2)
+        ctx.set("rule", "replay")
+        return
+    if data.get("mode") == "facade-layout":
+        job, n, bad = _facade_layout_job(tuple(data["combo"]))
+        for cls, text in bad:
+            ctx.violation(f"C18|{cls}|{job[0]}", text, data)
         ctx.set("evaluations", 1)
         ctx.set("distinct_nontrivial", 2)
         ctx.set("rule", "replay")
